@@ -120,6 +120,7 @@ type FuncCtx struct {
 	paramList []paramInfo
 	keySorts map[string]string
 	curCallArgs []ast.Expr
+	ghostStack []map[string]*Val
 	noMerge  bool
 }
 
